@@ -16,7 +16,8 @@ RULE = (
     'starting before or after the rain record, with 0-3 '
     'gaps anywhere (including at the ends and gaps leaving a one-sample '
     'stretch); values on the dyadic lattice or arbitrary floats; rows of each '
-    'file shuffled in 30% of cases; five time zones; 20% of cases through '
+    'file shuffled in 30% of cases; five fixed-offset time zones, and in 1 case of 6 a zone with daylight saving '
+    '(Europe/Berlin, America/New_York, Australia/Lord_Howe with its half-hour shift) with the record laid across the spring transition; 20% of cases through '
     'the command line on files (with / without byte-order mark, LF / CRLF); in 5 of 7 cases the numbers of the '
     'files are spelled another way (12 for 12.0, 1.25e+1, 1.25E+1, +12.5, 12.5000 - only where the shortest '
     'decimal has <= 15 digits). Oracle: an independent '
@@ -36,6 +37,12 @@ ASSUMPTIONS = ['pytz renders the harness-side timestamps (fixed-offset zones)']
 def cases(draw):
     dt, tz, t0 = draw(gen_records.header())
     n = draw(st.integers(2, 25))
+    dst = draw(st.integers(0, 5)) == 0
+    if dst:
+        # files written in a zone with daylight saving, the record laid
+        # across the spring transition (the files may start on either side)
+        tz, transition = draw(st.sampled_from(gen_records.DST_ZONES))
+        t0 = transition - draw(st.integers(-2, n + 3)) * dt
     rain = [[i, draw(st.integers(0, 640)) / 64.0] for i in range(n)]
     mode = draw(st.sampled_from(
         ['aligned', 'aligned', 'finer', 'coarser', 'unaligned']))
@@ -196,6 +203,8 @@ def compare(case, want, connection):
         out.add('shuffled')
     if case.get('numtext'):
         out.add('numbers-written-' + case['numtext'])
+    if case['tz'] in dict(gen_records.DST_ZONES):
+        out.add('zone-with-daylight-saving')
     if gap_with_instant or case['mode'] != 'aligned':
         out.add('nontrivial')
     return out
